@@ -219,6 +219,10 @@ def match_known(f, known):
             continue
         if "during" in k and f.get("during") not in k["during"]:
             continue
+        if "fault_site_re" in k and not re.search(k["fault_site_re"], str(f.get("fault_site", ""))):
+            continue
+        if "after" in k and f.get("after") not in k["after"]:
+            continue
         return k
     return None
 
